@@ -1,6 +1,6 @@
 (* C03 lemmas about Model/XdpDhcp.v (the fast-path program and the Go side of its cache). *)
 From Coq Require Import NArith List Bool Lia ZifyN ZifyNat ZifyBool Arith.
-From Verif Require Import Base.Word Model.XdpDhcp Model.XdpDhcpSpec.
+From Verif Require Import Base.Word Base.Check Model.XdpDhcp Model.XdpDhcpSpec Model.XdpDhcpCheck.
 Import ListNotations.
 Local Open Scope N_scope.
 
@@ -903,4 +903,253 @@ Proof.
   rewrite le_bytes_length in R. cbn [Nat.add] in R. rewrite R.
   rewrite rd_app_l by (rewrite le_bytes_length; lia). rewrite rd_some by (rewrite le_bytes_length; lia).
   cbn [skipn]. rewrite firstn_all2 by (rewrite le_bytes_length; lia). reflexivity.
+Qed.
+
+(* ------------------------------------------------------------------ byte order of the cached addresses *)
+Lemma go_ip_rev a b c d : a < 256 -> b < 256 -> c < 256 -> d < 256 -> go_ip [a; b; c; d] = [d; c; b; a].
+Proof.
+  intros Ha Hb Hc Hd. unfold go_ip, le_bytes, be_val. cbn [fold_left be_bytes rev app N.of_nat].
+  change (256 ^ N.pos (Pos.of_succ_nat 2)) with 16777216. change (256 ^ N.pos (Pos.of_succ_nat 1)) with 65536.
+  change (256 ^ N.pos (Pos.of_succ_nat 0)) with 256. change (256 ^ 0) with 1.
+  set (v := ((0 * 256 + a) * 256 + b) * 256 + c).
+  assert (E0 : (v * 256 + d) mod 256 = d) by (rewrite N.add_comm, N.mod_add by discriminate; apply N.mod_small; exact Hd).
+  assert (D1 : (v * 256 + d) / 256 = v) by (rewrite N.add_comm, N.div_add by discriminate; rewrite (N.div_small d 256 Hd); reflexivity).
+  Time cbn [rev app].
+  rewrite N.div_1_r, E0.
+  repeat f_equal.
+  - replace ((v * 256 + d) / 256) with v by (symmetry; exact D1). unfold v.
+    rewrite N.add_comm, N.mod_add by discriminate. apply N.mod_small. exact Hc.
+  - replace 65536 with (256 * 256) by reflexivity. rewrite <- N.div_div by discriminate. rewrite D1. unfold v.
+    rewrite (N.add_comm _ c), N.div_add by discriminate. rewrite (N.div_small c 256 Hc). cbn [N.add].
+    rewrite N.add_comm, N.mod_add by discriminate. apply N.mod_small. exact Hb.
+  - replace 16777216 with (256 * 256 * 256) by reflexivity. rewrite <- !N.div_div by discriminate. rewrite D1. unfold v.
+    rewrite (N.add_comm _ c), N.div_add by discriminate. rewrite (N.div_small c 256 Hc). cbn [N.add].
+    rewrite (N.add_comm _ b), N.div_add by discriminate. rewrite (N.div_small b 256 Hb). cbn [N.add].
+    cbn. apply N.mod_small. exact Ha.
+Qed.
+
+Lemma parsed_inj p q : Parsed p = Parsed q -> p = q.
+Proof. intros H; inversion H; reflexivity. Qed.
+
+(* the slow path ACKs (mac, ip); a frame of that client (found through its MAC) that the fast path answers
+   carries go_ip ip as yiaddr - the bytes of ip reversed *)
+Lemma ack_reply_yiaddr m mac ip pool vlan class ex cid now unow f r mk p ch :
+  let m' := fst (cache_step m (GAck mac ip pool vlan class ex cid)) in
+  wf_bytes f -> wf_maps m' -> N.of_nat (length f) < 65536 ->
+  parse f = Parsed p -> p_tagged p = false -> extract_cid f (p_dhcp p + 240) = Some None ->
+  rd f (p_dhcp p + 28) 6 = Some ch -> rev ch ++ [0; 0] = go_mac_key mac ->
+  xdp m' now unow f = Done XDP_TX r mk -> rd r (p_dhcp p + 16) 4 = Some (go_ip ip).
+Proof.
+  intros m' Wf Wm L Ep Et Ec Em Ek H.
+  destruct (xdp_result _ _ _ _ _ _ _ Wf Wm L H) as [(A & _)|(_ & X)]; [discriminate|].
+  destruct X as (p' & mt & asg & ex' & pid & poolval & cfg & yi & pv & cfgip & A1 & A2 & A3 & A4 & A5 & A6 & A7 & A8).
+  rewrite Ep in A1. apply parsed_inj in A1. subst p'.
+  unfold find_assignment in A3. rewrite Et, Ec, Em, Ek in A3. unfold m' in A3. rewrite ack_entry in A3.
+  inversion A3; subst asg. rewrite assignment_ip in A7. inversion A7; subst yi.
+  exact (F_yi _ _ _ _ _ _ A8).
+Qed.
+
+(* ------------------------------------------------------------------ reply type *)
+Lemma opt_bytes_type rt pv sip : tlv_msg_type (opt_bytes rt pv sip) = rt.
+Proof.
+  unfold tlv_msg_type, tlv_get, opt_bytes. cbn [app length tlv_find].
+  destruct (53 =? 0) eqn:E; [discriminate|]. destruct (53 =? 255) eqn:E2; [discriminate|].
+  cbn. reflexivity.
+Qed.
+
+(* ------------------------------------------------------------------ recorded witnesses
+   Each is one corpus case (corpus/C03/k03*.json) as the driver recorded it on the real code: the slow-path
+   events, the raw dump of the kernel maps, the maps rewritten to network order where the case isolates
+   another defect, the request frame, the clocks, the userspace reply, and the kernel program's output. *)
+Definition wit_k03a : case := [(Ev (GPool {| gp_id := 1; gp_net := [172;20;5;0]; gp_prefix := 24; gp_gw := [172;20;5;1]; gp_dns := [[9;9;9;10]; [192;0;2;53]]; gp_lease := 3600 |}), OUnit); (Ev (GConfig [2;170;187;204;221;1] [172;20;5;254] 7), OUnit); (Ev (GAck [2;0;94;16;0;17] [172;20;5;2] 1 0 1 1790145896 []), ODump [([17;0;16;94;0;2;0;0], [1;0;0;0;2;5;20;172;0;0;0;0;1;104;117;179;106;0;0;0;0;0;0;0;0])] [] [] [([1;0;0;0], [0;5;20;172;24;0;0;0;1;5;20;172;10;9;9;9;53;2;0;192;16;14;0;0;0;0;0;0])] [2;170;187;204;221;1;0;0;254;5;20;172;7;0;0;0]); (Probe (unz [B [255;255;255;255;255;255;2;0;94;16;0;17;8;0;69;0;1;76;243;38;0;0;128;17;70;123;0;0;0;0;255;255;255;255;0;68;0;67;1;56;0;0;1;1;6;0;57;3;243;38]; Z 20; B [2;0;94;16;0;17]; Z 202; B [99;130;83;99;53;1;1;55;4;1;3;6;51;255]; Z 54]) 11823166568629 1790142296 {| sv_kind := 2; sv_yiaddr := [172;20;5;2]; sv_sid := [172;20;5;254]; sv_mask := [255;255;255;0]; sv_router := [172;20;5;1]; sv_dns := [9;9;9;10;192;0;2;53]; sv_lease := 3600; sv_status := 1 |}, OXdp 3 (Some (unz [B [255;255;255;255;255;255;2;170;187;204;221;1;8;0;69;0;1;62;243;38;0;0;64;17;115;215;254;5;20;172;255;255;255;255;0;67;0;68;1;42;0;0;2;1;6;0;57;3;243;38]; Z 8; B [2;5;20;172;254;5;20;172;0;0;0;0;2;0;94;16;0;17]; Z 202; B [99;130;83;99;53;1;2;54;4;254;5;20;172;51;4;0;0;14;16;1;4;255;255;255;0;3;4;1;5;20;172;6;8;10;9;9;9;53;2;0;192;58;4;0;0;7;8;59;4;0;0;12;78;255]]))); (Probe (unz [B [255;255;255;255;255;255;2;0;94;16;0;17;8;0;69;0;1;76;243;38;0;0;128;17;70;123;0;0;0;0;255;255;255;255;0;68;0;67;1;56;0;0;1;1;6;0;57;3;243;38]; Z 20; B [2;0;94;16;0;17]; Z 202; B [99;130;83;99;53;1;3;50;4;172;20;5;2;55;4;1;3;6;51;255]; Z 48]) 11823188934900 1790142296 {| sv_kind := 5; sv_yiaddr := [172;20;5;2]; sv_sid := [172;20;5;254]; sv_mask := [255;255;255;0]; sv_router := [172;20;5;1]; sv_dns := [9;9;9;10;192;0;2;53]; sv_lease := 3600; sv_status := 1 |}, OXdp 3 (Some (unz [B [255;255;255;255;255;255;2;170;187;204;221;1;8;0;69;0;1;62;243;38;0;0;64;17;115;215;254;5;20;172;255;255;255;255;0;67;0;68;1;42;0;0;2;1;6;0;57;3;243;38]; Z 8; B [2;5;20;172;254;5;20;172;0;0;0;0;2;0;94;16;0;17]; Z 202; B [99;130;83;99;53;1;5;54;4;254;5;20;172;51;4;0;0;14;16;1;4;255;255;255;0;3;4;1;5;20;172;6;8;10;9;9;9;53;2;0;192;58;4;0;0;7;8;59;4;0;0;12;78;255]])))].
+Definition wit_k03c : case := [(Ev (GPool {| gp_id := 1; gp_net := [172;20;5;0]; gp_prefix := 24; gp_gw := [172;20;5;1]; gp_dns := [[9;9;9;10]; [192;0;2;53]]; gp_lease := 3600 |}), OUnit); (Ev (GConfig [2;170;187;204;221;1] [172;20;5;254] 7), OUnit); (Ev (GAck [2;0;94;16;0;17] [172;20;5;2] 1 0 1 1790145896 []), OUnit); (Ev (GAge 7200), ODump [([17;0;16;94;0;2;0;0], [1;0;0;0;2;5;20;172;0;0;0;0;1;72;89;179;106;0;0;0;0;0;0;0;0])] [] [] [([1;0;0;0], [0;5;20;172;24;0;0;0;1;5;20;172;10;9;9;9;53;2;0;192;16;14;0;0;0;0;0;0])] [2;170;187;204;221;1;0;0;254;5;20;172;7;0;0;0]); (SetMaps {| m_sub := [([17;0;16;94;0;2;0;0], [1;0;0;0;172;20;5;2;0;0;0;0;1;72;89;179;106;0;0;0;0;0;0;0;0])]; m_vlan := []; m_cid := []; m_pool := [([1;0;0;0], [172;20;5;0;24;0;0;0;172;20;5;1;9;9;9;10;192;0;2;53;16;14;0;0;0;0;0;0])]; m_cfg := Some [2;170;187;204;221;1;0;0;172;20;5;254;7;0;0;0]; m_origin := 1 |}, OUnit); (Probe (unz [B [255;255;255;255;255;255;2;0;94;16;0;17;8;0;69;0;1;76;243;38;0;0;128;17;70;123;0;0;0;0;255;255;255;255;0;68;0;67;1;56;0;0;1;1;6;0;57;3;243;38]; Z 20; B [2;0;94;16;0;17]; Z 202; B [99;130;83;99;53;1;1;55;4;1;3;6;51;255]; Z 54]) 11823243667615 1790142296 {| sv_kind := 2; sv_yiaddr := [172;20;5;2]; sv_sid := [172;20;5;254]; sv_mask := [255;255;255;0]; sv_router := [172;20;5;1]; sv_dns := [9;9;9;10;192;0;2;53]; sv_lease := 3600; sv_status := 2 |}, OXdp 3 (Some (unz [B [255;255;255;255;255;255;2;170;187;204;221;1;8;0;69;0;1;62;243;38;0;0;64;17;212;118;172;20;5;254;255;255;255;255;0;67;0;68;1;42;0;0;2;1;6;0;57;3;243;38]; Z 8; B [172;20;5;2;172;20;5;254;0;0;0;0;2;0;94;16;0;17]; Z 202; B [99;130;83;99;53;1;2;54;4;172;20;5;254;51;4;0;0;14;16;1;4;255;255;255;0;3;4;172;20;5;1;6;8;9;9;9;10;192;0;2;53;58;4;0;0;7;8;59;4;0;0;12;78;255]])))].
+Definition wit_k03f : case := [(Ev (GPool {| gp_id := 1; gp_net := [172;20;5;0]; gp_prefix := 24; gp_gw := [172;20;5;1]; gp_dns := [[9;9;9;10]; [192;0;2;53]]; gp_lease := 3600 |}), OUnit); (Ev (GConfig [2;170;187;204;221;1] [172;20;5;254] 7), OUnit); (Ev (GAck [2;0;94;16;0;17] [172;20;5;2] 1 0 1 1790145896 []), ODump [([17;0;16;94;0;2;0;0], [1;0;0;0;2;5;20;172;0;0;0;0;1;104;117;179;106;0;0;0;0;0;0;0;0])] [] [] [([1;0;0;0], [0;5;20;172;24;0;0;0;1;5;20;172;10;9;9;9;53;2;0;192;16;14;0;0;0;0;0;0])] [2;170;187;204;221;1;0;0;254;5;20;172;7;0;0;0]); (SetMaps {| m_sub := [([17;0;16;94;0;2;0;0], [1;0;0;0;172;20;5;2;0;0;0;0;1;104;117;179;106;0;0;0;0;0;0;0;0])]; m_vlan := []; m_cid := []; m_pool := [([1;0;0;0], [172;20;5;0;24;0;0;0;172;20;5;1;9;9;9;10;192;0;2;53;16;14;0;0;0;0;0;0])]; m_cfg := Some [2;170;187;204;221;1;0;0;172;20;5;254;7;0;0;0]; m_origin := 1 |}, OUnit); (Probe (unz [B [255;255;255;255;255;255;2;0;94;16;0;17;8;0;69;0;1;76;243;38;0;0;128;17;70;123;0;0;0;0;255;255;255;255;0;68;0;67;1;56;0;0;1;1;6;0;57;3;243;38]; Z 20; B [2;0;94;16;0;17]; Z 202; B [99;130;83;99;53;1;3;50;4;172;20;5;6;255]; Z 54]) 11823366121831 1790142296 {| sv_kind := 6; sv_yiaddr := [0;0;0;0]; sv_sid := [172;20;5;254]; sv_mask := []; sv_router := []; sv_dns := []; sv_lease := 0; sv_status := 1 |}, OXdp 3 (Some (unz [B [255;255;255;255;255;255;2;170;187;204;221;1;8;0;69;0;1;62;243;38;0;0;64;17;212;118;172;20;5;254;255;255;255;255;0;67;0;68;1;42;0;0;2;1;6;0;57;3;243;38]; Z 8; B [172;20;5;2;172;20;5;254;0;0;0;0;2;0;94;16;0;17]; Z 202; B [99;130;83;99;53;1;5;54;4;172;20;5;254;51;4;0;0;14;16;1;4;255;255;255;0;3;4;172;20;5;1;6;8;9;9;9;10;192;0;2;53;58;4;0;0;7;8;59;4;0;0;12;78;255]])))].
+Definition wit_k03g : case := [(Ev (GPool {| gp_id := 1; gp_net := [172;20;5;0]; gp_prefix := 24; gp_gw := [172;20;5;1]; gp_dns := [[9;9;9;10]; [192;0;2;53]]; gp_lease := 3600 |}), OUnit); (Ev (GConfig [2;170;187;204;221;1] [172;20;5;254] 7), OUnit); (Ev (GAck [2;0;94;16;0;17] [172;20;5;2] 1 0 1 1790145896 []), ODump [([17;0;16;94;0;2;0;0], [1;0;0;0;2;5;20;172;0;0;0;0;1;104;117;179;106;0;0;0;0;0;0;0;0])] [] [] [([1;0;0;0], [0;5;20;172;24;0;0;0;1;5;20;172;10;9;9;9;53;2;0;192;16;14;0;0;0;0;0;0])] [2;170;187;204;221;1;0;0;254;5;20;172;7;0;0;0]); (SetMaps {| m_sub := [([17;0;16;94;0;2;0;0], [1;0;0;0;172;20;5;2;0;0;0;0;1;104;117;179;106;0;0;0;0;0;0;0;0])]; m_vlan := []; m_cid := []; m_pool := [([1;0;0;0], [172;20;5;0;24;0;0;0;172;20;5;1;9;9;9;10;192;0;2;53;16;14;0;0;0;0;0;0])]; m_cfg := Some [2;170;187;204;221;1;0;0;172;20;5;254;7;0;0;0]; m_origin := 1 |}, OUnit); (Probe (unz [B [255;255;255;255;255;255;2;0;94;16;0;17;8;0;69;0;1;76;243;38;0;0;128;17;149;100;172;20;5;2;255;255;255;255;0;68;0;67;1;56;0;0;1;1;6;0;57;3;243;38;0;0;0;0;172;20;5;2]; Z 12; B [2;0;94;16;0;17]; Z 202; B [99;130;83;99;61;7;1;53;1;1;9;9;9;53;1;7;255]; Z 51]) 11823410717595 1790142296 {| sv_kind := 0; sv_yiaddr := []; sv_sid := []; sv_mask := []; sv_router := []; sv_dns := []; sv_lease := 0; sv_status := 1 |}, OXdp 3 (Some (unz [B [2;0;94;16;0;17;2;170;187;204;221;1;8;0;69;0;1;62;243;38;0;0;64;17;212;118;172;20;5;254;255;255;255;255;0;67;0;68;1;42;0;0;2;1;6;0;57;3;243;38;0;0;0;0;172;20;5;2;172;20;5;2;172;20;5;254;0;0;0;0;2;0;94;16;0;17]; Z 202; B [99;130;83;99;53;1;2;54;4;172;20;5;254;51;4;0;0;14;16;1;4;255;255;255;0;3;4;172;20;5;1;6;8;9;9;9;10;192;0;2;53;58;4;0;0;7;8;59;4;0;0;12;78;255]])))].
+Definition wit_k03h : case := [(Ev (GPool {| gp_id := 1; gp_net := [172;20;5;0]; gp_prefix := 24; gp_gw := [172;20;5;1]; gp_dns := [[9;9;9;10]; [192;0;2;53]]; gp_lease := 3600 |}), OUnit); (Ev (GAck [2;0;94;16;0;17] [172;20;5;2] 1 0 1 1790145897 []), ODump [([17;0;16;94;0;2;0;0], [1;0;0;0;2;5;20;172;0;0;0;0;1;105;117;179;106;0;0;0;0;0;0;0;0])] [] [] [([1;0;0;0], [0;5;20;172;24;0;0;0;1;5;20;172;10;9;9;9;53;2;0;192;16;14;0;0;0;0;0;0])] [0;0;0;0;0;0;0;0;0;0;0;0;0;0;0;0]); (SetMaps {| m_sub := [([17;0;16;94;0;2;0;0], [1;0;0;0;172;20;5;2;0;0;0;0;1;105;117;179;106;0;0;0;0;0;0;0;0])]; m_vlan := []; m_cid := []; m_pool := [([1;0;0;0], [172;20;5;0;24;0;0;0;172;20;5;1;9;9;9;10;192;0;2;53;16;14;0;0;0;0;0;0])]; m_cfg := Some [0;0;0;0;0;0;0;0;0;0;0;0;0;0;0;0]; m_origin := 1 |}, OUnit); (Probe (unz [B [255;255;255;255;255;255;2;0;94;16;0;17;8;0;69;0;1;76;243;38;0;0;128;17;70;123;0;0;0;0;255;255;255;255;0;68;0;67;1;56;0;0;1;1;6;0;57;3;243;38]; Z 20; B [2;0;94;16;0;17]; Z 202; B [99;130;83;99;53;1;1;55;4;1;3;6;51;255]; Z 54]) 11823471726683 1790142297 {| sv_kind := 2; sv_yiaddr := [172;20;5;2]; sv_sid := [172;20;5;254]; sv_mask := [255;255;255;0]; sv_router := [172;20;5;1]; sv_dns := [9;9;9;10;192;0;2;53]; sv_lease := 3600; sv_status := 1 |}, OXdp 3 (Some (unz [B [255;255;255;255;255;255]; Z 6; B [8;0;69;0;1;62;243;38;0;0;64;17;213;115;172;20;5;1;255;255;255;255;0;67;0;68;1;42;0;0;2;1;6;0;57;3;243;38]; Z 8; B [172;20;5;2;172;20;5;1;0;0;0;0;2;0;94;16;0;17]; Z 202; B [99;130;83;99;53;1;2;54;4;172;20;5;1;51;4;0;0;14;16;1;4;255;255;255;0;3;4;172;20;5;1;6;8;9;9;9;10;192;0;2;53;58;4;0;0;7;8;59;4;0;0;12;78;255]])))].
+
+(* maps and probe of a recorded case *)
+Fixpoint run_maps (s : state) (tr : case) : state :=
+  match tr with
+  | [] => s
+  | (Probe _ _ _ _, _) :: _ => s
+  | (o, _) :: tl => run_maps (fst (fst (step s o))) tl
+  end.
+Fixpoint probe_of (tr : case) : bytes * N * N :=
+  match tr with
+  | [] => ([], 0, 0)
+  | (Probe f now unow _, _) :: _ => (f, now, unow)
+  | _ :: tl => probe_of tl
+  end.
+Definition wmaps (c : case) : maps := run_maps init c.
+Definition wframe (c : case) : bytes := fst (fst (probe_of c)).
+Definition wnow (c : case) : N := snd (fst (probe_of c)).
+Definition wunow (c : case) : N := snd (probe_of c).
+
+(* the monitor's verdict on the recorded cases: Model output = recorded kernel output (first number 0),
+   implementation and Model rejected at the same step for the same clause (+1), marker raised *)
+Lemma wit_rows :
+  run_cases [wit_k03a; wit_k03c; wit_k03f; wit_k03g; wit_k03h] =
+  [[1; 0; 4; 4; 4; 4; 301]; [2; 0; 6; 6; 6; 6; 304]; [3; 0; 5; 3; 5; 3; 307]; [4; 0; 5; 2; 5; 2; 308]; [5; 0; 4; 4; 4; 4; 309]].
+Proof. vm_compute. reflexivity. Qed.
+
+Definition is_tx (x : res) : bool := match x with Done v _ _ => v =? XDP_TX | OOB => false end.
+Definition res_frame (x : res) : bytes := match x with Done _ r _ => r | OOB => [] end.
+
+Definition res_marks (x : res) : list N := match x with Done _ _ mk => mk | OOB => [] end.
+Definition parsed_of (f : bytes) : pkt :=
+  match parse f with
+  | Parsed p => p
+  | _ => {| p_tagged := false; p_vid := 0; p_ivid := 0; p_voff := 0; p_ip := 0; p_ihl := 0; p_udp := 0; p_dhcp := 0 |}
+  end.
+Definition some_or_nil (o : option bytes) : bytes := match o with Some x => x | None => [] end.
+
+(* ---- the clauses that fail on the code as it is, as closed statements over the Model ---- *)
+
+(* after the slow path ACKs (mac, ip) the fast path's reply to that client carries ip *)
+Definition yiaddr_agrees : Prop :=
+  forall m mac ip pool vlan class ex cid now unow f r mk p ch,
+    let m' := fst (cache_step m (GAck mac ip pool vlan class ex cid)) in
+    parse f = Parsed p -> p_tagged p = false -> extract_cid f (p_dhcp p + 240) = Some None ->
+    rd f (p_dhcp p + 28) 6 = Some ch -> rev ch ++ [0; 0] = go_mac_key mac ->
+    xdp m' now unow f = Done XDP_TX r mk -> rd r (p_dhcp p + 16) 4 = Some ip.
+
+(* an entry whose lease_expiry lies before the Unix clock is not answered *)
+Definition expired_silent : Prop :=
+  forall m now unow f p asg ex v r mk,
+    parse f = Parsed p -> find_assignment m f p = Some (Some asg) -> rd asg 13 8 = Some ex -> le_val ex < unow ->
+    xdp m now unow f = Done v r mk -> v <> XDP_TX.
+
+(* an ACK confirms the address the REQUEST names (option 50, else ciaddr) *)
+Definition request_confirmed : Prop :=
+  forall m now unow f p a r mk,
+    parse f = Parsed p -> get_msg_type f (p_dhcp p + 240) = Some 3 -> requested_addr f p = Some a ->
+    xdp m now unow f = Done XDP_TX r mk -> rd r (p_dhcp p + 16) 4 = Some a.
+
+(* OFFER answers a DISCOVER and ACK a REQUEST, the request's type read by a TLV walk *)
+Definition type_agrees : Prop :=
+  forall m now unow f p r mk,
+    parse f = Parsed p -> xdp m now unow f = Done XDP_TX r mk ->
+    let tq := tlv_msg_type (skipn (p_dhcp p + 240) f) in
+    let tr := tlv_msg_type (skipn (p_dhcp p + 240) r) in
+    (tq = 1 /\ tr = 2) \/ (tq = 3 /\ tr = 5).
+
+Definition ack_of (c : case) : gev := match nth_error c 2 with Some (Ev e, _) => e | _ => GAge 0 end.
+Definition ack_ex (e : gev) : N := match e with GAck _ _ _ _ _ x _ => x | _ => 0 end.
+
+Lemma yiaddr_agrees_refuted : ~ yiaddr_agrees.
+Proof.
+  intros H.
+  pose (f := wframe wit_k03a). pose (m := run_maps init (firstn 2 wit_k03a)). pose (ex := ack_ex (ack_of wit_k03a)).
+  pose (mac := [2; 0; 94; 16; 0; 17]). pose (ip := [172; 20; 5; 2]).
+  pose (x := xdp (fst (cache_step m (GAck mac ip 1 0 1 ex []))) (wnow wit_k03a) (wunow wit_k03a) f).
+  pose (p := parsed_of f).
+  assert (G1 : parse f = Parsed p) by (vm_compute; reflexivity).
+  assert (G2 : p_tagged p = false) by (vm_compute; reflexivity).
+  assert (G3 : extract_cid f (p_dhcp p + 240) = Some None) by (vm_compute; reflexivity).
+  assert (G4 : rd f (p_dhcp p + 28) 6 = Some mac) by (vm_compute; reflexivity).
+  assert (G5 : rev mac ++ [0; 0] = go_mac_key mac) by (vm_compute; reflexivity).
+  assert (G6 : xdp (fst (cache_step m (GAck mac ip 1 0 1 ex []))) (wnow wit_k03a) (wunow wit_k03a) f = Done XDP_TX (res_frame x) (res_marks x)) by (vm_compute; reflexivity).
+  pose proof (H m mac ip 1 0 1 ex [] (wnow wit_k03a) (wunow wit_k03a) f (res_frame x) (res_marks x) p mac G1 G2 G3 G4 G5 G6) as G.
+  assert (G7 : rd (res_frame x) (p_dhcp p + 16) 4 = Some [2; 5; 20; 172]) by (vm_compute; reflexivity).
+  rewrite G7 in G. discriminate G.
+Qed.
+
+Lemma expired_silent_refuted : ~ expired_silent.
+Proof.
+  intros H.
+  pose (f := wframe wit_k03c). pose (m := wmaps wit_k03c). pose (p := parsed_of f).
+  pose (x := xdp m (wnow wit_k03c) (wunow wit_k03c) f).
+  pose (asg := match find_assignment m f p with Some (Some a) => a | _ => [] end).
+  pose (ex := some_or_nil (rd asg 13 8)).
+  assert (G1 : parse f = Parsed p) by (vm_compute; reflexivity).
+  assert (G2 : find_assignment m f p = Some (Some asg)) by (vm_compute; reflexivity).
+  assert (G3 : rd asg 13 8 = Some ex) by (vm_compute; reflexivity).
+  assert (G4 : le_val ex < wunow wit_k03c) by (vm_compute; reflexivity).
+  assert (G5 : xdp m (wnow wit_k03c) (wunow wit_k03c) f = Done XDP_TX (res_frame x) (res_marks x)) by (vm_compute; reflexivity).
+  exact (H m (wnow wit_k03c) (wunow wit_k03c) f p asg ex XDP_TX (res_frame x) (res_marks x) G1 G2 G3 G4 G5 eq_refl).
+Qed.
+
+Lemma request_confirmed_refuted : ~ request_confirmed.
+Proof.
+  intros H.
+  pose (f := wframe wit_k03f). pose (m := wmaps wit_k03f). pose (p := parsed_of f).
+  pose (x := xdp m (wnow wit_k03f) (wunow wit_k03f) f).
+  pose (a := some_or_nil (requested_addr f p)).
+  assert (G1 : parse f = Parsed p) by (vm_compute; reflexivity).
+  assert (G2 : get_msg_type f (p_dhcp p + 240) = Some 3) by (vm_compute; reflexivity).
+  assert (G3 : requested_addr f p = Some a) by (vm_compute; reflexivity).
+  assert (G4 : xdp m (wnow wit_k03f) (wunow wit_k03f) f = Done XDP_TX (res_frame x) (res_marks x)) by (vm_compute; reflexivity).
+  pose proof (H m (wnow wit_k03f) (wunow wit_k03f) f p a (res_frame x) (res_marks x) G1 G2 G3 G4) as G.
+  assert (G5 : rd (res_frame x) (p_dhcp p + 16) 4 = Some [172; 20; 5; 2]) by (vm_compute; reflexivity).
+  assert (G6 : a = [172; 20; 5; 6]) by (vm_compute; reflexivity).
+  rewrite G5, G6 in G. discriminate G.
+Qed.
+
+Lemma type_agrees_refuted : ~ type_agrees.
+Proof.
+  intros H.
+  pose (f := wframe wit_k03g). pose (m := wmaps wit_k03g). pose (p := parsed_of f).
+  pose (x := xdp m (wnow wit_k03g) (wunow wit_k03g) f).
+  assert (G1 : parse f = Parsed p) by (vm_compute; reflexivity).
+  assert (G2 : xdp m (wnow wit_k03g) (wunow wit_k03g) f = Done XDP_TX (res_frame x) (res_marks x)) by (vm_compute; reflexivity).
+  pose proof (H m (wnow wit_k03g) (wunow wit_k03g) f p (res_frame x) (res_marks x) G1 G2) as G. cbv zeta in G.
+  assert (G3 : tlv_msg_type (skipn (p_dhcp p + 240) f) = 7) by (vm_compute; reflexivity).
+  rewrite G3 in G. destruct G as [[A _]|[A _]]; discriminate A.
+Qed.
+
+(* ------------------------------------------------------------------ the same clauses under their guards *)
+Lemma yiaddr_agrees_partial m mac a b c d pool vlan class ex cid now unow f r mk p ch :
+  let ip := [a; b; c; d] in
+  let m' := fst (cache_step m (GAck mac ip pool vlan class ex cid)) in
+  a < 256 -> b < 256 -> c < 256 -> d < 256 -> rev ip = ip ->
+  wf_bytes f -> wf_maps m' -> N.of_nat (length f) < 65536 ->
+  parse f = Parsed p -> p_tagged p = false -> extract_cid f (p_dhcp p + 240) = Some None ->
+  rd f (p_dhcp p + 28) 6 = Some ch -> rev ch ++ [0; 0] = go_mac_key mac ->
+  xdp m' now unow f = Done XDP_TX r mk -> rd r (p_dhcp p + 16) 4 = Some ip.
+Proof.
+  intros ip m' Ha Hb Hc Hd Hp Wf Wm L Ep Et Ec Em Ek H.
+  rewrite (ack_reply_yiaddr m mac ip pool vlan class ex cid now unow f r mk p ch Wf Wm L Ep Et Ec Em Ek H).
+  unfold ip. rewrite go_ip_rev by assumption. f_equal. exact Hp.
+Qed.
+
+Lemma expired_silent_partial m now unow f p asg ex v r mk :
+  wf_bytes f -> wf_maps m -> N.of_nat (length f) < 65536 -> now / NS_PER_S = unow ->
+  parse f = Parsed p -> find_assignment m f p = Some (Some asg) -> rd asg 13 8 = Some ex -> le_val ex < unow ->
+  xdp m now unow f = Done v r mk -> v <> XDP_TX.
+Proof.
+  intros Wf Wm L E Ep Ef Eex Hlt H Ev.
+  destruct (xdp_result _ _ _ _ _ _ _ Wf Wm L H) as [(A & _)|(_ & X)]; [rewrite A in Ev; discriminate|].
+  destruct X as (p' & mt & asg' & ex' & pid & poolval & cfg & yi & pv & cfgip & A1 & A2 & A3 & (A4 & A5) & _).
+  rewrite Ep in A1. apply parsed_inj in A1. subst p'. rewrite Ef in A3. inversion A3; subst asg'.
+  rewrite Eex in A4. inversion A4; subst ex'. lia.
+Qed.
+
+Lemma request_confirmed_partial m now unow f p a asg r mk :
+  wf_bytes f -> wf_maps m -> N.of_nat (length f) < 65536 ->
+  parse f = Parsed p -> find_assignment m f p = Some (Some asg) -> rd asg 4 4 = Some a ->
+  xdp m now unow f = Done XDP_TX r mk -> rd r (p_dhcp p + 16) 4 = Some a.
+Proof.
+  intros Wf Wm L Ep Ef Ea H.
+  destruct (xdp_result _ _ _ _ _ _ _ Wf Wm L H) as [(A & _)|(_ & X)]; [discriminate|].
+  destruct X as (p' & mt & asg' & ex' & pid & poolval & cfg & yi & pv & cfgip & A1 & A2 & A3 & A4 & A5 & A6 & A7 & A8).
+  rewrite Ep in A1. apply parsed_inj in A1. subst p'. rewrite Ef in A3. inversion A3; subst asg'.
+  rewrite Ea in A7. inversion A7; subst yi. exact (F_yi _ _ _ _ _ _ A8).
+Qed.
+
+Lemma type_agrees_partial m now unow f p r mk :
+  wf_bytes f -> wf_maps m -> N.of_nat (length f) < 65536 ->
+  parse f = Parsed p -> get_msg_type f (p_dhcp p + 240) = Some (tlv_msg_type (skipn (p_dhcp p + 240) f)) ->
+  xdp m now unow f = Done XDP_TX r mk ->
+  let tq := tlv_msg_type (skipn (p_dhcp p + 240) f) in
+  let tr := tlv_msg_type (skipn (p_dhcp p + 240) r) in
+  (tq = 1 /\ tr = 2) \/ (tq = 3 /\ tr = 5).
+Proof.
+  intros Wf Wm L Ep Eg H tq tr.
+  destruct (xdp_result _ _ _ _ _ _ _ Wf Wm L H) as [(A & _)|(_ & X)]; [discriminate|].
+  destruct X as (p' & mt & asg' & ex' & pid & poolval & cfg & yi & pv & cfgip & A1 & (A2 & A2') & A3 & A4 & A5 & A6 & A7 & A8).
+  rewrite Ep in A1. apply parsed_inj in A1. subst p'. rewrite Eg in A2. inversion A2 as [E]. fold tq in E.
+  assert (Er : skipn (p_dhcp p + 240) r = opt_bytes (rt_of mt) pv (if all_zero cfgip then pv_gw pv else cfgip))
+    by (apply (rd_all_skipn _ _ _ _ (F_opts _ _ _ _ _ _ A8)); exact (F_len _ _ _ _ _ _ A8)).
+  unfold tr. rewrite Er, opt_bytes_type.
+  destruct A2' as [M|M]; [left|right]; (split; [unfold tq; congruence|]); rewrite M; reflexivity.
 Qed.
